@@ -282,6 +282,19 @@ def trajectory_part(ck: Check, rnd):
             E = np.array([crtbp_energy(s, system.mu) for s in traj.states])
             cs.obs(t, "energy_drift", float(np.max(np.abs(E - E[0]))))
             cs.obs(t, "jacobi_plus_2E", float(np.max(np.abs(np.array([energy_to_jacobi(e) for e in E]) + 2 * E))))
+    # "every trajectory follows the field", also over a very short span on a fine output grid: x(t) - x0 = f(x0) t + O(t^2) with the
+    # (exactly verified) field of THIS system; an implementation that answers "nearly zero" spans without integrating returns x0
+    for sname, system in sysd.items():
+        ic = np.array(ics_of(float(system.mu))["spatial"], dtype=float)
+        f0 = np.asarray(system.dynsys.rhs(0.0, ic), dtype=float)
+        for (method, order), fwd in itertools.product((("adaptive", 8), ("fixed", 8)), (1, -1)):
+            tfs = 1e-5
+            label = f"{sname}|{method}{order}|forward={fwd}|short-span"
+            t = cs.trace(label, {"short_span_follows_field": -15}, {"system": sname, "method": method, "order": order, "forward": fwd, "kind": "short-span"})
+            ck.count(("traj-short", label), True)
+            traj = system.propagate(ic, tf=tfs, steps=2001, method=method, order=order, forward=fwd)
+            xe = np.asarray(traj.states[-1], dtype=float)
+            cs.obs(t, "short_span_follows_field", float(np.max(np.abs(xe - ic - fwd * tfs * f0))) / float(np.max(np.abs(tfs * f0))))
     # the energy / Jacobi constant the OBJECTS report are those of the kernel checked exactly above
     for sname, system in sysd.items():
         L = system.get_libration_point(1)
@@ -299,6 +312,7 @@ def trajectory_part(ck: Check, rnd):
             cs.obs(t, "point_energy_binding", max(abs(float(P.energy) - crtbp_energy(st, system.mu)),
                                                   abs(float(P.jacobi) + 2 * crtbp_energy(st, system.mu))))
     cs.decide(key_fn=lambda t, n: ("propagate|reported-energy-not-constant-" + t["data"]["kind"]) if n == "energy_drift"
+              else "propagate|short-span-does-not-follow-the-field" if n == "short_span_follows_field"
               else f"energy|contract:{n}")
     cs.selftest()
 
